@@ -210,7 +210,7 @@ Definition efseg_eval (c : cfg) (s : efseg) (origin k : Z) : Z :=
   let kt := c_kt c in
   let d := if kbits kt >=? 32 then wrapK kt (k - origin) else k - origin in
   let far := fun {p e} (x : Flocq.IEEE754.BinarySingleNaN.binary_float p e) =>
-    match truncZ x with Some z => z >=? 2 ^ 63 | None => true end in
+    match truncZ x with Some z => z >=? 2 ^ 62 | None => true end in
   if c_fdouble c then
     let p := mul64 (es_slope s) (ofZ64 d) in
     if far p then 2 ^ 63 - 1 else
